@@ -375,9 +375,10 @@ class Ri16Relocation(Relocation):
         assert sym_value & 3 == 0
         offset = sym_value - ((reloc_value + 3) & 0xFFFFFFFC)
         offset = offset >> 2
-        # assert offset in range(-60000, 2095), str(offset)
-        # TODO: this wrap_negative is somewhat weird
-        return wrap_negative(offset, 16)
+        # The 16 bit word offset of l32r is one-extended: the literal must
+        # be located before the instruction.
+        assert offset in range(-65536, 0), str(offset)
+        return offset & 0xFFFF
 
 
 @core_isa.register_relocation
